@@ -13,7 +13,12 @@ _DENSE = st.lists(st.sampled_from([0, 0, 0, 0, 0, 1, 1, 2, 3]), min_size=30, max
 _SYNC = st.tuples(st.sampled_from(['release', 'release', 'acquire', 'file']),
                   st.one_of(st.integers(1, 12), st.integers(1, 45)), st.integers(0, 3))
 _FINE = st.tuples(st.sampled_from(['line', 'any']), st.one_of(st.integers(1, 60), st.integers(1, 450)), st.integers(0, 3))
-_SEGMENTS = st.fixed_dictionaries({'segments': st.lists(st.one_of(_SYNC, _SYNC, _FINE).map(list), min_size=1, max_size=14)})
+# ... of one particular lock (named by the class that created it): 'after the 2nd release of the file pool's lock'
+_NAMED = st.tuples(st.tuples(st.sampled_from(['release', 'release', 'acquire']),
+                             st.sampled_from(['FilePool', 'FilePool', 'FileStorage', 'MVCCAdapterInstance', 'MVCCAdapter', 'DB',
+                                              'MappingStorage', 'DemoStorage'])).map(':'.join),
+                   st.integers(1, 12), st.integers(0, 3))
+_SEGMENTS = st.fixed_dictionaries({'segments': st.lists(st.one_of(_SYNC, _NAMED, _NAMED, _FINE).map(list), min_size=1, max_size=14)})
 SCHEDULE = st.one_of(_DENSE, _SEGMENTS, _SEGMENTS)
 
 
